@@ -54,7 +54,7 @@ def programs(tier, seed):
             for combo in itertools.product(seqs(alpha, 1), repeat=3):
                 three.append({"init": init, "threads": [list(c) for c in combo]})
     rnd.shuffle(progs)
-    n = 140 if tier == "quick" else 2500
+    n = 140 if tier == "quick" else 800
     # always include the canonical races first
     canon = [
         {"init": {"repr": "prom", "len": 8, "off": 3, "give": False}, "threads": [[{"op": "clone_s"}, {"op": "read", "i": 0}], [{"op": "clone_s"}, {"op": "read", "i": 0}]]},
@@ -97,25 +97,24 @@ def run(tag, progs, max_runs, free_runs=0, profile="debug", random_runs=0, seed=
     with open(trace, "w") as f:
         f.write("\n".join(lines) + "\n")
     nruns = sum(1 for ln in lines if ln.startswith('{"k":"reset"'))
-    rc, out = C.run_tlc("AtomicsMonitor", "AtomicsMonitor.cfg", os.path.join(C.WORK, "tlc_" + tag), workers=1, env_extra={"TRACE": trace},
-                        timeout=3000, heap="8g")
-    tuples = C.tlc_tuples(out)
-    done = [t for t in tuples if re.match(r'<<\s*"DONE"', t)]
-    if not done or C.tlc_failed(out):
-        raise C.ToolError("TLC did not consume the concurrent trace %s:\n%s" % (trace, "\n".join(out.split("\n")[-30:])))
-    m = re.match(r'<<\s*"DONE",\s*(\d+),\s*(\d+)', done[-1])
-    if int(m.group(1)) != len(lines):
-        raise C.ToolError("TLC consumed %s of %d events" % (m.group(1), len(lines)))
+    tuples, st, total = C.run_tlc_parallel("AtomicsMonitor", "AtomicsMonitor.cfg", trace, tag, lambda ln: ln.startswith('{"k":"reset"'),
+                                           nparts=8 if len(lines) > 20000 else 1)
+    if total != len(lines):
+        raise C.ToolError("TLC consumed %d of %d events" % (total, len(lines)))
+    counts = {}
+    for t in tuples:
+        if re.match(r'<<\s*"DONE"', t):
+            for k, n in C.parse_counts(t).items():
+                counts[k] = counts.get(k, 0) + n
     viols = []
     for t in tuples:
         mm = re.match(r'<<\s*"LAWVIOL",\s*(-?\d+),\s*(-?\d+),\s*"([^"]*)",\s*\{(.*)\}\s*>>', t)
         if mm:
             viols.append({"pid": int(mm.group(1)), "run": int(mm.group(2)), "k": mm.group(3),
                           "laws": re.findall(r'<<\s*"([^"]+)",\s*"([^"]+)"\s*>>', mm.group(4))})
-    st = C.tlc_stats(out)
     C.log("[threads] %s: %d programs, %d executions, %d events, %d violating executions; run %.1fs, TLC %.1fs%s" %
           (tag, len(progs), nruns, len(lines), len(viols), t1 - t0, time.time() - t1, " (harness died)" if crashed else ""))
-    return {"tag": tag, "programs": len(progs), "executions": nruns, "events": len(lines), "violations": viols, "counts": C.parse_counts(done[-1]),
+    return {"tag": tag, "programs": len(progs), "executions": nruns, "events": len(lines), "violations": viols, "counts": counts,
             "tlc": st, "trace": trace, "progs": progs, "crashed": crashed}
 
 
